@@ -11,6 +11,20 @@
 ;@ghost now Int
 ;@ghost held (Array Int Bool)
 
+; sequence indexing through bridging functions (z3 rewrites seq.nth, which therefore cannot be a trigger)
+;@chunk nthInt nth_Int
+(declare-fun nth_Int ((Seq Int) Int) Int)
+(assert (forall ((s (Seq Int)) (i Int)) (! (= (nth_Int s i) (seq.nth s i)) :pattern ((nth_Int s i)))))
+;@chunk nthString nth_String
+(declare-fun nth_String ((Seq String) Int) String)
+(assert (forall ((s (Seq String)) (i Int)) (! (= (nth_String s i) (seq.nth s i)) :pattern ((nth_String s i)))))
+;@chunk nthAny nth_Any
+(declare-fun nth_Any ((Seq Any) Int) Any)
+(assert (forall ((s (Seq Any)) (i Int)) (! (= (nth_Any s i) (seq.nth s i)) :pattern ((nth_Any s i)))))
+;@chunk nthKV nth_D_KeyValue
+(declare-fun nth_D_KeyValue ((Seq D_KeyValue) Int) D_KeyValue)
+(assert (forall ((s (Seq D_KeyValue)) (i Int)) (! (= (nth_D_KeyValue s i) (seq.nth s i)) :pattern ((nth_D_KeyValue s i)))))
+
 ;@chunk lastIndexOf lastIndexOf
 (declare-fun lastIndexOf (String String) Int)
 (assert (forall ((s String) (t String)) (! (and
@@ -155,3 +169,25 @@
 (define-fun compactOf ((k String)) String (ite (= k "accept-contact") "a" (ite (= k "a") "accept-contact" (ite (= k "referred-by") "b" (ite (= k "b") "referred-by" (ite (= k "content-type") "c" (ite (= k "c") "content-type" (ite (= k "content-encoding") "e" (ite (= k "e") "content-encoding" (ite (= k "from") "f" (ite (= k "f") "from" (ite (= k "call-id") "i" (ite (= k "i") "call-id" (ite (= k "supported") "k" (ite (= k "k") "supported" (ite (= k "content-length") "l" (ite (= k "l") "content-length" (ite (= k "contact") "m" (ite (= k "m") "contact" (ite (= k "event") "o" (ite (= k "o") "event" (ite (= k "refer-to") "r" (ite (= k "r") "refer-to" (ite (= k "subject") "s" (ite (= k "s") "subject" (ite (= k "to") "t" (ite (= k "t") "to" (ite (= k "allow-events") "u" (ite (= k "u") "allow-events" (ite (= k "via") "v" (ite (= k "v") "via" k)))))))))))))))))))))))))))))))
 (define-fun canonName ((n String)) String (ite (= (lower n) "a") "accept-contact" (ite (= (lower n) "b") "referred-by" (ite (= (lower n) "c") "content-type" (ite (= (lower n) "e") "content-encoding" (ite (= (lower n) "f") "from" (ite (= (lower n) "i") "call-id" (ite (= (lower n) "k") "supported" (ite (= (lower n) "l") "content-length" (ite (= (lower n) "m") "contact" (ite (= (lower n) "o") "event" (ite (= (lower n) "r") "refer-to" (ite (= (lower n) "s") "subject" (ite (= (lower n) "t") "to" (ite (= (lower n) "u") "allow-events" (ite (= (lower n) "v") "via" (lower n)))))))))))))))))
 (assert (and (= (lower "Accept-Contact") "accept-contact") (= (lower "Allow-Events") "allow-events") (= (lower "CSeq") "cseq") (= (lower "Call-ID") "call-id") (= (lower "Contact") "contact") (= (lower "Content-Encoding") "content-encoding") (= (lower "Content-Length") "content-length") (= (lower "Content-Type") "content-type") (= (lower "Event") "event") (= (lower "Expires") "expires") (= (lower "From") "from") (= (lower "Max-Forwards") "max-forwards") (= (lower "Record-Route") "record-route") (= (lower "Refer-To") "refer-to") (= (lower "Referred-By") "referred-by") (= (lower "Route") "route") (= (lower "Subject") "subject") (= (lower "Subscription-State") "subscription-state") (= (lower "Supported") "supported") (= (lower "TCP") "tcp") (= (lower "TLS") "tls") (= (lower "To") "to") (= (lower "UDP") "udp") (= (lower "Via") "via") (= (lower "a") "a") (= (lower "accept-contact") "accept-contact") (= (lower "allow-events") "allow-events") (= (lower "b") "b") (= (lower "c") "c") (= (lower "call-id") "call-id") (= (lower "contact") "contact") (= (lower "content-encoding") "content-encoding") (= (lower "content-length") "content-length") (= (lower "content-type") "content-type") (= (lower "cseq") "cseq") (= (lower "e") "e") (= (lower "event") "event") (= (lower "expires") "expires") (= (lower "f") "f") (= (lower "from") "from") (= (lower "i") "i") (= (lower "k") "k") (= (lower "l") "l") (= (lower "m") "m") (= (lower "max-forwards") "max-forwards") (= (lower "o") "o") (= (lower "r") "r") (= (lower "record-route") "record-route") (= (lower "refer-to") "refer-to") (= (lower "referred-by") "referred-by") (= (lower "route") "route") (= (lower "s") "s") (= (lower "subject") "subject") (= (lower "subscription-state") "subscription-state") (= (lower "supported") "supported") (= (lower "t") "t") (= (lower "tcp") "tcp") (= (lower "tls") "tls") (= (lower "to") "to") (= (lower "u") "u") (= (lower "udp") "udp") (= (lower "v") "v") (= (lower "via") "via")))
+
+;@chunk hdr isHdr firstIdx firstIdxU sameHdrName
+; sameHdrName(a, b): header names a and b denote the same header field (defined in chunk hdrcanon)
+(declare-fun sameHdrName (String String) Bool)
+; header h (a *Header reference) carries the header field named n, up to case and compact form
+(define-fun isHdr ((H_Header_name (Array Int String)) (h Int) (n String)) Bool
+  (sameHdrName (select H_Header_name h) n))
+; index of the first header named n in the list hs, or -1 (definitional axiom: the minimum exists)
+(declare-fun firstIdxU ((Array Int String) (Seq Int) String) Int)
+(define-fun firstIdx ((H_Header_name (Array Int String)) (hs (Seq Int)) (n String)) Int (firstIdxU H_Header_name hs n))
+(assert (forall ((H (Array Int String)) (hs (Seq Int)) (n String)) (!
+  (and (>= (firstIdxU H hs n) (- 1)) (< (firstIdxU H hs n) (seq.len hs))
+       (=> (>= (firstIdxU H hs n) 0) (sameHdrName (select H (nth_Int hs (firstIdxU H hs n))) n))
+       (forall ((j Int)) (! (=> (and (<= 0 j) (< j (ite (>= (firstIdxU H hs n) 0) (firstIdxU H hs n) (seq.len hs))))
+                                (not (sameHdrName (select H (nth_Int hs j)) n)))
+                            :pattern ((nth_Int hs j)))))
+  :pattern ((firstIdxU H hs n)))))
+
+;@chunk hdrcanon sameHdrNameDef
+; definition of sameHdrName: equality of canonical names (lower-case, compact letter -> long name)
+(assert (forall ((a String) (b String)) (! (= (sameHdrName a b) (= (canonName a) (canonName b))) :pattern ((sameHdrName a b)))))
+
